@@ -4,6 +4,7 @@ package main
 
 import (
 	"fmt"
+	"strings"
 
 	"github.com/tdakkota/docker-logql/internal/logql"
 	"github.com/tdakkota/docker-logql/internal/logql/logqlengine"
@@ -27,6 +28,10 @@ var c01Lines = []string{
 	`x=007 y=a`, `x=5.0 y=b`, `x=1e1 y=a`,
 	// the same malformed value in consecutive records (anything remembered from the previous record shows here)
 	`ip=notanip d=soon sz=big y=b`, `sz=big d=soon`, `sz= d= x=`,
+	// invalid UTF-8 other than the needle \xff: byte-wise and rune-wise search disagree on these
+	"\xfeb", "a\xc3", "\xef\xbf\xbd",
+	// long lines: the needle only at the very end, beyond 1 KiB; a long logfmt record
+	strings.Repeat("x", 1100) + "ab", strings.Repeat("pad=1 ", 180) + "x=7 y=b",
 }
 
 // c01Records: every line once, unique timestamps, stream labels cycling through app in {x,y} x env in {p,absent}.
